@@ -474,8 +474,12 @@ def run(ctx: Context) -> None:
         ctx.check('R06.6', ok_store, "invalid polygons are replaced by None in place", pg, stores[0] if stores else pg.node)
         ok_idx = False
         detail = ''
+        cond = None
         if isinstance(idx_expr, ast.Call) and callee(ctx, pg, idx_expr) == 'numpy.flatnonzero' and idx_expr.args:
             cond = idx_expr.args[0]
+        elif isinstance(idx_expr, (ast.BinOp, ast.UnaryOp, ast.Compare)):
+            cond = idx_expr         # the boolean array itself selects the positions
+        if cond is not None:
             # every array operand of the condition is aligned with the full array: no compressed / subscripted polygons
             subs = [n for n, _ in flow.expand(cond) if isinstance(n, ast.Subscript) and flow.reaches(n.value, lambda m: m is mk[0])]
             inv = [n for n, _ in flow.expand(cond) if isinstance(n, ast.UnaryOp) and isinstance(n.op, ast.Invert)
@@ -495,7 +499,14 @@ def run(ctx: Context) -> None:
         if filt:
             from .common import emptiness_test
             t = emptiness_test(flow, filt[0].test)
-            ok = ok and t is not None and t[0] == 'nonempty' and flow.canon(t[1]) == flow.canon(stores[0].targets[0].slice)
+            guard_ok = t is not None and t[0] == 'nonempty' and flow.canon(t[1]) == flow.canon(stores[0].targets[0].slice)
+            # `<boolean array>.any()` / numpy.any(<boolean array>): some position is selected
+            g_ = filt[0].test
+            if isinstance(g_, ast.Call) and isinstance(g_.func, ast.Attribute) and g_.func.attr == 'any' and not g_.args and flow.canon(g_.func.value) == flow.canon(stores[0].targets[0].slice):
+                guard_ok = True
+            if isinstance(g_, ast.Call) and callee(ctx, pg, g_) == 'numpy.any' and len(g_.args) == 1 and flow.canon(g_.args[0]) == flow.canon(stores[0].targets[0].slice):
+                guard_ok = True
+            ok = ok and guard_ok
         ctx.check('R06.6', ok, "every path from _make_polygons() to the return passes the validity filter, applied whenever any polygon is invalid", pg,
                   rets[0] if rets else pg.node, construct=f"filter guard: {norm_text(filt[0].test) if filt else 'absent'}")
         ro = [n for n in walk_no_nested(pg.node) if isinstance(n, ast.Assign) and norm_text(n.targets[0]).endswith('.flags.writeable')
